@@ -2,6 +2,7 @@ package rules
 
 import (
 	"fmt"
+	"go/token"
 	"go/types"
 	"strings"
 
@@ -107,9 +108,14 @@ func c15_6(c *core.Ctx, p *core.Prog) {
 			fns = append(fns, fn)
 		}
 	}
+	seenOrigin := map[*ssa.Function]bool{}
 	for _, top := range fns {
 		if top.Synthetic != "" {
-			continue
+			// instantiations of a generic function are analysed once (the generic body itself has no SSA)
+			if top.Origin() == nil || seenOrigin[top.Origin()] {
+				continue
+			}
+			seenOrigin[top.Origin()] = true
 		}
 		for _, fn := range core.WithClosures(top) {
 			if fn != top && reach[fn] {
@@ -118,7 +124,7 @@ func c15_6(c *core.Ctx, p *core.Prog) {
 			k := 0
 			core.EachInstr(fn, func(i ssa.Instruction) {
 				cl, ok := i.(*ssa.Call)
-				if !ok || !arrowOwnedResult(cl) {
+				if !ok || !(arrowOwnedResult(cl) || repoBuiltResult(cl)) {
 					return
 				}
 				k++
@@ -185,21 +191,157 @@ func c15_6(c *core.Ctx, p *core.Prog) {
 						}
 					}
 				}
-				// a store into a local cell that a deferred closure releases is a release, not an escape
-				leak, _ := core.PathQuery{Fn: fn, From: cl, Avoid: isRel, ExitReturnOnly: true}.Exists()
+				// per return: the reference is returned by it, or released / handed on along every path that
+				// reaches it.  Edges on which the reference is known to be nil are not followed: the nil arm of a
+				// test of the reference itself, and the error arm of the error returned by the same call.
+				isHandOn := func(j ssa.Instruction) bool {
+					switch y := j.(type) {
+					case *ssa.Store:
+						return al[y.Val] && !isVarargsSlot(y.Addr)
+					case *ssa.Send:
+						return al[y.X]
+					case *ssa.MapUpdate:
+						return al[y.Value] || al[y.Key]
+					case *ssa.MakeClosure:
+						for _, b := range y.Bindings {
+							if al[b] {
+								return true
+							}
+						}
+					case *ssa.Call:
+						if b, ok := y.Call.Value.(*ssa.Builtin); ok && b.Name() == "append" {
+							for _, a := range y.Call.Args[1:] {
+								if al[a] {
+									return true
+								}
+							}
+						}
+						// a repository function that keeps its argument (a message constructor storing the record)
+						if callee := y.Call.StaticCallee(); callee != nil && core.InRepo(core.FnPkgPath(callee)) {
+							for k, a := range y.Call.Args {
+								if al[a] && paramKept(callee, k, 0) {
+									return true
+								}
+							}
+						}
+					}
+					return false
+				}
+				cut := map[core.Edge]bool{}
+				var sibErr ssa.Value
+				for _, r := range core.Referrers(cl) {
+					if e, ok := r.(*ssa.Extract); ok && isErr(e.Type()) {
+						sibErr = e
+					}
+				}
+				for _, b := range fn.Blocks {
+					iff := core.IfOf(b)
+					if iff == nil {
+						continue
+					}
+					cmp, ok := iff.Cond.(*ssa.BinOp)
+					if !ok || (cmp.Op != token.NEQ && cmp.Op != token.EQL) || !core.IsNilConst(cmp.Y) {
+						continue
+					}
+					nilEdge := 1 // successor taken when X == nil
+					if cmp.Op == token.EQL {
+						nilEdge = 0
+					}
+					switch {
+					case al[cmp.X]:
+						cut[core.Edge{From: b, To: b.Succs[nilEdge]}] = true
+					case sibErr != nil && (cmp.X == sibErr || errAliasOf(cmp.X, sibErr)):
+						cut[core.Edge{From: b, To: b.Succs[1-nilEdge]}] = true // err != nil: the reference is nil by convention
+					}
+				}
+				leakAt, nRet := "", 0
+				for _, r := range core.Returns(fn) {
+					returnsIt := false
+					for _, res := range r.Results {
+						if al[res] {
+							returnsIt = true
+						}
+					}
+					if returnsIt {
+						nRet++
+						continue
+					}
+					if ok, _ := (core.PathQuery{Fn: fn, From: cl, To: r, CutEdges: cut, Avoid: func(j ssa.Instruction) bool { return isRel(j) || isHandOn(j) }}).Exists(); ok {
+						leakAt = p.Pos(r.Pos())
+					}
+				}
 				switch {
-				case !leak:
+				case leakAt == "" && fate.escapes == "":
 					c.OK(key, pos, core.FuncName(fn), "the reference obtained from "+callee.Name()+" is released on every path to a return")
-				case fate.escapes != "":
-					c.InfoOb(key, pos, core.FuncName(fn), "the reference obtained from "+callee.Name()+" is handed on ("+fate.escapes+"): its receiver owns it")
-				case fate.released:
-					c.Viol(key, pos, core.FuncName(fn), "the reference obtained from "+callee.Name()+" is released on some paths only: on the others its buffers never return to the allocator, and Close cannot reach them")
+				case leakAt == "":
+					c.InfoOb(key, pos, core.FuncName(fn), "the reference obtained from "+callee.Name()+" is released or handed on ("+fate.escapes+") on every path: its receiver owns it")
+				case fate.released || fate.escapes != "":
+					c.Viol(key, pos, core.FuncName(fn), "the reference obtained from "+callee.Name()+" is released or handed on on some paths only: the return at "+leakAt+" is reached with the reference neither released, returned nor stored — its buffers never return to the allocator, and Close cannot reach them")
 				default:
 					c.Viol(key, pos, core.FuncName(fn), "the reference obtained from "+callee.Name()+" is never released, returned or stored: its buffers never return to the allocator, and Close cannot reach them")
 				}
 			})
 		}
 	}
+}
+
+// repoBuiltResult: a Build / TryBuild / NewRecord of the repository that hands its caller a record or array.
+func repoBuiltResult(cl *ssa.Call) bool {
+	var f *types.Func
+	if cl.Call.IsInvoke() {
+		f = cl.Call.Method
+	} else {
+		f = core.CalleeObj(cl)
+	}
+	if f == nil || f.Pkg() == nil || !core.InRepo(f.Pkg().Path()) {
+		return false
+	}
+	switch f.Name() {
+	case "Build", "TryBuild", "NewRecord", "BuildRecord":
+	default:
+		return false
+	}
+	sig := f.Type().(*types.Signature)
+	return sig.Results().Len() >= 1 && hasRetainRelease(sig.Results().At(0).Type())
+}
+
+// paramKept: the callee stores its k-th parameter into an object, returns it, or passes it to a function that does.
+func paramKept(fn *ssa.Function, k int, depth int) bool {
+	if fn == nil || k >= len(fn.Params) || depth > 2 {
+		return false
+	}
+	al := aliasesOf(fn.Params[k])
+	kept := false
+	for v := range al {
+		for _, r := range core.Referrers(v) {
+			switch y := r.(type) {
+			case *ssa.Store:
+				if al[y.Val] && !isVarargsSlot(y.Addr) {
+					kept = true
+				}
+			case *ssa.Return:
+				kept = true
+			case *ssa.MapUpdate:
+				if al[y.Value] {
+					kept = true
+				}
+			case *ssa.Call:
+				if callee := y.Call.StaticCallee(); callee != nil && core.InRepo(core.FnPkgPath(callee)) {
+					for j, a := range y.Call.Args {
+						if al[a] && paramKept(callee, j, depth+1) {
+							kept = true
+						}
+					}
+				}
+			}
+		}
+	}
+	return kept
+}
+
+// errAliasOf: v is the same error as e (through a φ or a wrapper call).
+func errAliasOf(v, e ssa.Value) bool {
+	return core.DerivesFrom(v, func(x ssa.Value) bool { return x == e })
 }
 
 // isVarargsSlot: addr is an element of the array the compiler allocates for a
